@@ -7,7 +7,7 @@ cd "$(dirname "$(realpath "$0")")"
 W=${1:-4}
 ROOT=/var/tmp/pregress
 rm -rf $ROOT; mkdir -p $ROOT
-ls -d seeded/C*/ | sed 's|seeded/||; s|/||' | sort > $ROOT/all.txt
+ls -d seeded/C*${2:-}/ | sed 's|seeded/||; s|/||' | sort > $ROOT/all.txt
 split -n r/$W $ROOT/all.txt $ROOT/part.
 k=0
 for part in $ROOT/part.*; do
